@@ -43,7 +43,8 @@ func (n *node) ops(focus string) []op {
 		for _, dt := range []string{"1s", "1h", "1e7s"} {
 			out = append(out, op{"publish", dt})
 		}
-	} else {
+	}
+	if !n.W.Publisher || n.W.OfferBlocks {
 		for _, c := range n.blocks() {
 			out = append(out, op{"block", c.Name})
 		}
